@@ -452,8 +452,41 @@ def rule_e(repo, chk):
            key='process_params-dispatch')
 
 
+def rule_f(repo, chk):
+    chk.clause('C11.f', 'a signature never names a keyword-bindable parameter twice: the collected keyword-only parameters of all forwarded callables are '
+                        'emitted through one loop that skips names already in used_names and registers every name it emits (de-duplication among '
+                        'themselves and against the positional-or-keyword names emitted earlier)')
+    pp = repo.find('jedi.inference.star_args', 'process_params')
+    c = cfg_of(pp)
+    loops = [n for n in own_nodes(pp) if isinstance(n, ast.For) and norm(n.iter) == 'kw_only_names' and isinstance(n.target, ast.Name)]
+    other = [n for n in own_nodes(pp) if isinstance(n, (ast.YieldFrom, ast.GeneratorExp, ast.ListComp)) and 'kw_only_names' in norm(n)]
+    for n in other:
+        chk.ob('C11.f', False, n, 'the collected keyword-only names are emitted by `%s`, which cannot register what it emits in used_names' % short(n),
+               key='kw-only-emission|bulk')
+    if not loops and not other:
+        raise AnchorError('process_params: no emission of kw_only_names found')
+    for lp in loops:
+        v = lp.target.id
+        ys = [y for y in ast.walk(lp) if isinstance(y, ast.Yield)]
+        chk.ob('C11.f', len(ys) == 1 and norm(ys[0].value) == v, lp, 'the loop over kw_only_names emits the element itself, at one place')
+        for y in ys:
+            w = gate(pp, y, lambda e, pol: (not pol) and isinstance(e, ast.Compare) and isinstance(e.ops[0], ast.In)
+                     and norm(e.left) == '%s.string_name' % v and norm(e.comparators[0]) == 'used_names')
+            chk.ob('C11.f', w is None, y, 'a keyword-only name is emitted only if its string_name is not in used_names yet', w or '')
+            yn = c.nodes_containing(y)
+            adds = {n.id for n in c.nodes if n.ast is not None and n.kind == 'stmt' and isinstance(n.ast, ast.Expr)
+                    and norm(n.ast.value) == 'used_names.add(%s.string_name)' % v}
+            heads = {n.id for n in c.nodes if n.kind == 'for' and n.ast is lp}
+            p_ = c.reach(yn, lambda n: n.id in heads or n is c.exit, block_node=lambda n: n.id in adds, kinds={'n', 'T', 'F'})
+            chk.ob('C11.f', p_ is None and bool(adds), y, 'every emitted keyword-only name is registered in used_names before the next one is looked at',
+                   'path: %s' % c.describe(p_) if p_ else '')
+    # the positional-or-keyword names emitted before are registered as well (so that a later keyword-only twin is dropped)
+    regs = [x for x in calls_in(pp, 'add') if norm(x.func.value) == 'used_names']
+    chk.floor('C11.f', len(regs), 2, '(registrations in used_names)')
+
+
 def describe(chk):
     chk.undecided('the index case analysis beyond its keyword guard and equality with inspect.signature (value dependent); *args/**kwargs pass-through resolution beyond the kind x forwarding dispatch of process_params')
 
 
-RULES = [('C11.a', rule_a), ('C11.b', rule_b), ('C11.c', rule_c), ('C11.d', rule_d), ('C11.e', rule_e)]
+RULES = [('C11.a', rule_a), ('C11.b', rule_b), ('C11.c', rule_c), ('C11.d', rule_d), ('C11.e', rule_e), ('C11.f', rule_f)]
